@@ -26,7 +26,7 @@ RULE = ("part A (exhaustive over the finite configuration matrix): name in {15 J
         "algorithms= or registry= x operation in {sign, verify, encrypt, decrypt} x entry point in {compact, flattened, general, "
         "RFC 7797, jwt.encode/decode}; for JWE the name under test stands in alg, enc or zip while the other two are allowed. A suitable "
         "key is always supplied; consumed tokens are reference-minted with exactly that alg; general JSON for two recipients, one naming an "
-        "algorithm outside the list, consumed with verify_all_recipients=False. part B: 120 generated histories x 30 "
+        "algorithm outside the list, consumed with verify_all_recipients=False; general JSON JWS with two valid signatures, one under an algorithm outside the list / the recommended set. part B: 120 generated histories x 30 "
         "steps over long-lived registries. Oracle: success iff (allowed and registered), except verification with 'none' (never); a "
         "refused well-typed name must raise UnsupportedAlgorithmError. non-trivial: every cell; distinct = cell tuple; histories with "
         ">= 2 different allow-lists.")
